@@ -1,8 +1,9 @@
 """C11 — changing input delay at run time keeps all peers in agreement."""
 from . import families as F
 from .simprops import generic_run, sizes, sim_replay
+from .p_queue import run_queue_correspondence
 LABELS = {"C11", "C01", "C03", "C05", "C06", "C18", "PANIC"}
 def run(ctx):
-    generic_run(ctx, LABELS, [("delay", lambda: F.fam_delay(ctx.rng, sizes(ctx, 150, 1500)))], needed_consts=["INPUT_QUEUE_LENGTH"])
+    generic_run(ctx, LABELS, extra=run_queue_correspondence, plan=[("delay", lambda: F.fam_delay(ctx.rng, sizes(ctx, 150, 1500)))], needed_consts=["INPUT_QUEUE_LENGTH"])
 def replay(ctx, path):
     return sim_replay(ctx, path, LABELS)
